@@ -21,7 +21,7 @@ UUID4 = re.compile(r"^[0-9a-f]{8}-[0-9a-f]{4}-4[0-9a-f]{3}-[89ab][0-9a-f]{3}-[0-
 PROFILE = grammar.profile(
     p_auto_populate=0.7, p_create=0.9, p_custom=0.8, p_update=0.4, p_delete=0.5, p_get=0.5, p_list=0.2, p_yaml=1.0,
     p_sstream=0.1, p_cstream=0.0, p_bidi=0.0, p_lro=0.1, p_service_config=0.9, p_signature=0.85,
-    transports=["grpc", "grpc", "grpc+rest"])
+    transports=["grpc", "grpc+rest", "grpc+rest"])
 
 BUDGET = {
     "quick": {"worlds": 100, "runs": 100, "wall_cap": 300, "world_wall": 90},
@@ -29,7 +29,7 @@ BUDGET = {
 }
 REQUIRED_PROBES = ["populated", "caller_value_kept", "explicit_empty_on_optional_kept", "empty_on_plain_populated",
                    "populated_on_retry_attempt", "concurrent_callers", "kwargs_form", "async_populated",
-                   "two_fields", "decoy_untouched", "non_auto_method"]
+                   "two_fields", "decoy_untouched", "non_auto_method", "rest_call"]
 ASSUMPTIONS = ["that all attempts of one invocation carry the same id is recorded (probe same_id_across_attempts) "
                "but not judged: the property does not state it",
                "re-submitting the very same request object is not judged (the library fills the caller's object in "
@@ -66,25 +66,32 @@ def gen_scenarios(spec, rng, n):
     auto = [x for x in um if x[3]]
     out = []
     for i in range(n):
-        client = rng.choice(["sync", "async", "async"])
-        nact = 1 if client == "sync" else rng.choice([1, 2, 3, 4])
+        client = rng.choice(["sync", "async", "async"] + (["rest", "rest"] if "rest" in spec["options"]["transport"] else []))
+        if "grpc" not in spec["options"]["transport"]:
+            client = "rest"
+        nact = 1 if client != "async" else rng.choice([1, 2, 3, 4])
         actors = [{"start": 0.0, "ops": []} for _ in range(nact)]
         nops = rng.randint(1, 4) if nact == 1 else nact + rng.randint(0, 2)
         for j in range(nops):
             fs, s, m, af = rng.choice(auto) if auto and rng.random() < 0.85 else rng.choice(um)
-            actors[j % nact]["ops"].append(gen_op(spec, rng, fs, s, m, af, f"o{j}"))
+            if client == "rest" and not m.get("http"):
+                continue
+            actors[j % nact]["ops"].append(gen_op(spec, rng, fs, s, m, af, f"o{j}", client))
         out.append({"client": client, "actors": [a for a in actors if a["ops"]], "jitter_default": 0.0,
                     "entropy_seed": rng.randrange(2**32)})
     return out
 
 
-def gen_op(spec, rng, fs, s, m, af, oid):
+def gen_op(spec, rng, fs, s, m, af, oid, client="sync"):
     req = find_message(spec, m["input"])
     val = {}
     fields = {f["name"]: f for f in req["fields"]}
     for n in ("name", "parent"):
         if n in fields and fields[n]["type"] == "string" and rng.random() < 0.8:
             val[n] = "projects/p1/things/t1"
+    if client == "rest" and m.get("http"):
+        from . import c04
+        c04._fill_path_vars(rng, val, m, m["http"], "ok")
     if "trace_id" in fields and rng.random() < 0.3:
         val["trace_id"] = "caller-trace"
     state = {}
@@ -117,9 +124,13 @@ def gen_op(spec, rng, fs, s, m, af, oid):
     # faults: retried attempts under the method's default retry
     T, pol, retry_T = c09.call_policy(spec, fs, s, m, {})
     script = []
-    if pol and rng.random() < 0.5:
+    codes = pol["codes"] if pol else []
+    if client == "rest":
+        from .. import simhttp
+        codes = [c for c in codes if c in simhttp.ROUND_TRIP]
+    if codes and rng.random() < 0.5:
         for _ in range(rng.randint(1, 3)):
-            script.append({"code": rng.choice(pol["codes"]), "lat": rng.choice([0.0, 0.01])})
+            script.append({"code": rng.choice(codes), "lat": rng.choice([0.0, 0.01])})
     script.append({"lat": rng.choice([0.0, 0.0, 0.02, 0.1]), "reply": {}})
     op["server"] = script
     return op
@@ -155,9 +166,26 @@ def judge(spec, scenario, history):
 
         def V(rule, msg):
             return [{"rule": rule, "op": op["id"], "method": path, "msg": msg}], probes
-        if e["path"] != path:
+        if e.get("tr") == "rest":
+            from . import c04
+            numeric = bool((spec.get("options") or {}).get("rest-numeric-enums"))
+            got = None
+            for b in c04.bindings(m):
+                if e["verb"].lower() == b["verb"]:
+                    try:
+                        r = c04.reverse(codec, m, b, e, numeric, {})
+                    except c04.Reject as rj:
+                        return V("rest_" + rj.rule, str(rj))
+                    if r is not None:
+                        got = r[0]
+                        break
+            if got is None:
+                return V("rest_no_binding", f"{e['verb']} {e['url']} matches no binding")
+            _bump(probes, "rest_call")
+        elif e["path"] != path:
             continue
-        got = codec.parse(m["input"], bytes.fromhex(e["reqs"][0]))
+        else:
+            got = codec.parse(m["input"], bytes.fromhex(e["reqs"][0]))
         exp = oracle.expected_request(codec, m, op)
         req = find_message(spec, m["input"])
         fields = {f["name"]: f for f in req["fields"]}
@@ -173,6 +201,12 @@ def judge(spec, scenario, history):
                 if wire != op["request"][f]:
                     return V("caller_value_altered", f"caller set {f}={op['request'][f]!r}; attempt {e['n']} carried {wire!r}")
                 _bump(probes, "caller_value_kept")
+            elif st == "empty" and optional and e.get("tr") == "rest" and fields[f]["name"] not in (m.get("http") or {}).get("body", "x"):
+                # explicit presence of an EMPTY optional string in a query string: carried as "f=" (checked by C04's
+                # reconstruction); the value must still not be replaced by a UUID
+                if wire != "":
+                    return V("explicit_empty_altered", f"caller explicitly set optional {f}=''; attempt {e['n']} carried {wire!r}")
+                _bump(probes, "explicit_empty_on_optional_kept")
             elif st == "empty" and optional:
                 if wire != "" or not got.HasField(f):
                     return V("explicit_empty_altered", f"caller explicitly set optional {f}=''; attempt {e['n']} carried "
@@ -195,7 +229,7 @@ def judge(spec, scenario, history):
                 if op.get("form") == "kwargs":
                     _bump(probes, "kwargs_form")
                 first = next(x for x in by[op["id"]] if x["k"] == "attempt")
-                if e is not first:
+                if e is not first and e.get("tr") != "rest":
                     g0 = codec.parse(m["input"], bytes.fromhex(first["reqs"][0]))
                     _bump(probes, "same_id_across_attempts" if getattr(g0, f) == wire else "id_changed_across_attempts")
             # neutralise for the remaining-fields comparison
